@@ -23,3 +23,15 @@ func init() {
 		Rule:      "exhaustive enumeration of the 4320 configurations, each batch taking every NBatch-th; distinct = distinct configuration.",
 	})
 }
+
+func init() {
+	reg("C19", &prop{
+		Pkg: "stock", Test: "TestC19", Race: true, QuickBatches: 6, ThoroughBatches: 48,
+		QuickTimeoutS: 600, ThoroughTimeoutS: 3000, GoMaxProcs: []int{2, 4, 16}, Parallel: 6,
+		Level: "exploration", DesignRef: "DESIGN.md section 4, C19",
+		Technique: "Go race detector over phase-aligned concurrent workloads on compositions of the library's stock nodes (shared across pipelines, formatters in non-root positions), with concurrent control calls; offline output-integrity checker per sink (whole documents of the sink's own format, per-sink line counts equal to what Send reported complete, no classified plaintext behind the encrypt filter, encrypted values open under a wrapper that was in force)",
+		LevelText: "Exploration by execution under the race detector: seeded compositions of 1..4 pipelines for one event type drawn from {Filter, encrypt.Filter, JSONFormatter, JSONFormatterFilter, cloudevents.FormatterFilter (signing), FileSink (size rotation, both naming modes), writer.Sink (split writes), ChannelSink (drained)} with nodes and sinks shared between pipelines, formatter-ish nodes also in non-root positions and filters after formatters, plus a gated.Filter pipeline whose composites return through the same Broker; 2..8 senders x 40..120 events with unique ids and secret/sensitive/public fields, interleaved with Broker.Reopen, FileSink.Reopen, encrypt.Filter.Rotate, in-band rotation payloads, cloudevents Rotate and threshold setters (barrier start, GOMAXPROCS 2/4/16). Oracles: zero library-attributed race reports, no fatal error or panic; every output line of every sink is a whole JSON document of that sink's format for exactly one event id; per sink the number of lines per event equals the number of times Status.CompleteSinks named the sink for that Send; sinks behind the encrypt filter hold no classified plaintext and their encrypted values open under one of the wrappers ever in force. The coverage lists the ordered pairs of node kinds that ran as neighbours.",
+		LevelNote: "Trusted: race detector (reports are attributed to the library iff an access stack has a frame under /repo), the independent crypto verifier. A clean run says nothing about node combinations that were not drawn; the pairs seen are listed in the evidence.",
+		Rule:      "seeded compositions and workloads; every composition is non-trivial (>=2 senders, >=1 shared node kind); distinct = distinct composition description.",
+	})
+}
